@@ -612,15 +612,20 @@ def check_grains(case, rec=None):
                 else:
                     cmp_h5(gl2, rd, " second save")
     # ---- ubi file (6 decimals)
-    ok, e = guard(indexing.write_ubi_file, fu, [g.ubi for g in gl])
+    # a ubi file is a list of matrices: matrices of either hand are kept as they are (every second list holds the
+    # inverse-handed copy of its first matrix, as a file from an indexing program with another axis convention does)
+    ubl = [np.array(g.ubi, float) for g in gl]
+    if len(ubl) % 2 == 0 and ubl:
+        ubl.append(-ubl[0])
+    ok, e = guard(indexing.write_ubi_file, fu, ubl)
     if not ok:
         fails.append(exc_failure("write_ubi_file", e))
     else:
         ok, rd = guard(indexing.readubis, fu)
         if not ok:
             fails.append(exc_failure("readubis", rd))
-        elif len(rd) != len(gl) or any(np.abs(np.asarray(r) - w.ubi).max() > 0.5e-6 * (1 + 1e-9) + 1e-12
-                                       for r, w in zip(rd, gl)):
+        elif len(rd) != len(ubl) or any(np.abs(np.asarray(r) - w).max() > 0.5e-6 * (1 + 1e-9) + 1e-12
+                                        for r, w in zip(rd, ubl)):
             fails.append(fail("ubifile", "ubi file does not round trip to 6 decimals in order", route="ubi"))
     rm(fn, fh, fu)
     if rec is not None:
